@@ -368,7 +368,11 @@ def finish(ctx: Ctx, spec):
     ev = dict(property_id=ctx.pid, tier=ctx.tier, seed=ctx.seed, level="proof", coverage=cov,
               assumptions=spec.get("assumptions", []) + ctx.assumptions, wall_s=round(time.time() - ctx.t0, 2), violations=unlisted)
     EVIDENCE.mkdir(exist_ok=True)
-    (EVIDENCE / (ctx.pid + ".json")).write_text(json.dumps(ev, indent=1, default=str))
+    # a development run without the Lean build and audit (--no-build) does not describe what the check covers: its record
+    # goes next to the evidence directory, never into it
+    target = EVIDENCE / (ctx.pid + ".json") if not getattr(ctx, "no_build", False) else ROOT / "replays" / (ctx.pid + ".no-build-evidence.json")
+    target.parent.mkdir(exist_ok=True)
+    target.write_text(json.dumps(ev, indent=1, default=str))
     for l in lines:
         print(l)
     print("%s %s tier=%s seed=%d obligations=%d/%d evaluations=%d wall=%.1fs" % (
